@@ -115,6 +115,9 @@ TOTAL = {
     "std::mem::swap": "total",
     "std::mem::drop": "total apart from the value's Drop",
     "core::slice::<impl [T]>::fill": "total",
+    "core::slice::<impl [T]>::last": "returns Option",
+    "core::slice::<impl [T]>::first": "returns Option",
+    "std::ptr::eq": "address comparison",
     "vmm_sys_util::epoll::Epoll::new": "syscall wrapper returning Result",
     "vmm_sys_util::epoll::Epoll::wait": "syscall wrapper returning Result",
     "vmm_sys_util::epoll::EpollEvent::new": "constructor",
